@@ -94,7 +94,10 @@
        modelled and proved separately; their composition with the optimiser's random stream is only observed);
        MOEAD and RVEA (different update rules: monitored only); CMA step-size / covariance updates (C11);
      * the per-generation invariants on the REAL optimiser runs of MOCMA, SteadyStateMOCMA, SMSEMOA, RealCodedNSGAII/III,
-       MOEAD, RVEA (size, value = objective at the closest feasible point, box, hypervolume monotone): monitored. *)
+       MOEAD, RVEA (size, value = objective at the closest feasible point, box, hypervolume monotone): monitored;
+     * serialization: a run that is written to a text archive after k steps, read into a fresh optimizer object and continued
+       must equal the uninterrupted run and keep all per-generation invariants (stream K of tools/c14.py; SMSEMOA,
+       SteadyStateMOCMA, MOCMA, RealCodedNSGAII x 3, RealCodedNSGAIII, MOEAD; RVEA cannot be serialized): monitored only. *)
 From Coq Require Import List ZArith Arith QArith.
 From SharkV Require Import ListAux C13Model C13Proofs C13ProofsContrib C14Model C14Proofs C14Ind C14IndProofs.
 From SharkV Require Import C14Nsga3 C14Nsga3Proofs C14CrowdProofs C14Var C14VarProofs C14Loop C14LoopProofs.
